@@ -159,6 +159,10 @@ def run_hist(case: dict[str, Any], ctx: Ctx) -> None:
                     elif pl.creates == "trial":
                         oracle.tid.append(r[1])
                         seen_t[wname].add(r[1])
+                        if pl.target is not None and pl.target[0] == "s" and pl.target[1] < len(oracle.sid):
+                            # creating a trial through a cached client puts the study into that
+                            # client's cache just as reading it does
+                            seen_s[wname].add(oracle.sid[pl.target[1]])
                         tpl = step["op"][2] if step["op"][0] == "create_trial_tmpl" else None
                         if tpl is not None and tpl["state"] in ("COMPLETE", "PRUNED", "FAIL"):
                             finished_template = True
